@@ -17,6 +17,8 @@ Lemma cz_nonneg {A} (f : A -> bool) l : 0 <= cz f l.
 Proof. induction l as [|x l IH]; simpl; [lia|destruct (f x); lia]. Qed.
 Lemma cz_app {A} (f : A -> bool) a b : cz f (a ++ b) = cz f a + cz f b.
 Proof. induction a as [|x a IH]; simpl; [lia|rewrite IH; lia]. Qed.
+Lemma nth_set_nth {A} (l : list A) i x : (i < length l)%nat -> nth_error (set_nth i x l) i = Some x.
+Proof. revert i; induction l as [|a l IH]; intros [|i] H; simpl in *; try lia; auto. apply IH. lia. Qed.
 Lemma cz_set_nth {A} (f : A -> bool) l i x y :
   nth_error l i = Some x -> cz f (set_nth i y l) = cz f l - b2z (f x) + b2z (f y).
 Proof.
@@ -71,14 +73,14 @@ Definition gl (f : cpc -> bool) (g : gpc) : bool :=
 
 (* owns callbackInProcess: from winning the CAS (or being spawned) to the store of 0 *)
 Definition g_own (g : gpc) : bool :=
-  match g with GMove | GChk | GCb | GCbBody _ _ | GCbClose _ _ | GCbEnd | GSw | GSwP | GSwR | GClr => true | _ => false end.
+  match g with GMove | GChk | GCb | GCbBody _ _ | GRdMove _ _ | GRdPark _ _ | GRdMoveC _ _ | GRdLd _ | GCbClose _ _ | GCbEnd | GSw | GSwP | GSwR | GClr => true | _ => false end.
 (* between clearing the flag and the re-check of pending *)
 Definition g_re (g : gpc) : bool := match g with GLdCs | GLen | GCas => true | _ => false end.
 (* owner that will still look at recvBuf *)
 Definition g_act (g : gpc) : bool :=
-  match g with GMove | GChk | GCb | GCbBody _ _ | GCbClose _ _ | GCbEnd => true | _ => false end.
+  match g with GMove | GChk | GCb | GCbBody _ _ | GRdMove _ _ | GRdPark _ _ | GRdMoveC _ _ | GRdLd _ | GCbClose _ _ | GCbEnd => true | _ => false end.
 (* OnData is executing *)
-Definition g_run (g : gpc) : bool := match g with GCbBody _ _ | GCbClose _ _ | GCbEnd => true | _ => false end.
+Definition g_run (g : gpc) : bool := match g with GCbBody _ _ | GRdMove _ _ | GRdPark _ _ | GRdMoveC _ _ | GRdLd _ | GCbClose _ _ | GCbEnd => true | _ => false end.
 (* IsOpen() check passed, OnData not yet begun *)
 Definition g_cb (g : gpc) : bool := match g with GCb => true | _ => false end.
 Definition g_exit (g : gpc) : bool := match g with GExit => true | _ => false end.
@@ -87,12 +89,12 @@ Definition g_all (g : gpc) : bool := true.
 Definition g_atclr (g : gpc) : bool := match g with GSw | GSwP | GSwR | GClr => true | _ => false end.
 (* owner that will still sweep recvBuf if it finds the state closed *)
 Definition g_sw (g : gpc) : bool :=
-  match g with GMove | GChk | GCb | GCbBody _ _ | GCbClose _ _ | GCbEnd | GSw | GSwP | GSwR => true | _ => false end.
+  match g with GMove | GChk | GCb | GCbBody _ _ | GRdMove _ _ | GRdPark _ _ | GRdMoveC _ _ | GRdLd _ | GCbClose _ _ | GCbEnd | GSw | GSwP | GSwR => true | _ => false end.
 (* inside the sweep (only entered with the state closed) *)
 Definition g_swin (g : gpc) : bool := match g with GSwP | GSwR => true | _ => false end.
 (* will still reach the load of callbackCloseState, or is already on the exit path that runs close() *)
 Definition g_w (g : gpc) : bool :=
-  match g with GMove | GChk | GCb | GCbBody _ _ | GCbClose _ _ | GCbEnd | GSw | GSwP | GSwR | GClr | GLdCs | GWgDoneClose | GClose _ => true
+  match g with GMove | GChk | GCb | GCbBody _ _ | GRdMove _ _ | GRdPark _ _ | GRdMoveC _ _ | GRdLd _ | GCbClose _ _ | GCbEnd | GSw | GSwP | GSwR | GClr | GLdCs | GWgDoneClose | GClose _ => true
   | _ => false end.
 Definition g_cbpast (g : gpc) : bool := match g with GCbClose c _ => c_past c | _ => false end.
 (* the exit path of the goroutine (entered only after it has read callbackWaitExit) *)
@@ -100,8 +102,15 @@ Definition g_xc (g : gpc) : bool := match g with GWgDoneClose | GClose _ => true
 (* close() on the exit path starts at its load of the state: these points do not occur *)
 Definition g_badclose (g : gpc) : bool := match g with GClose KStart | GClose KLdIn | GClose KHalf | GClose KRet => true | _ => false end.
 
+(* parked in readMore's select (a blocking read inside OnData) *)
+Definition g_park (g : gpc) : bool := match g with GRdPark _ _ => true | _ => false end.
+(* the event loop has added to pendingData and has not yet posted the token (or, state closed, cleared it again) *)
+Definition g_ownnp (g : gpc) : bool := g_own g && negb (g_park g).
+Definition e_tok (e : epcT) : Z := match e with EChk | ENotify | EClrP => 1 | _ => 0 end.
+(* close() waiting for the callback goroutine after a CAS from opened / localHalfClosed *)
+Definition c_waitA (c : cpc) : bool := match c with CWait o => isloc o | _ => false end.
 Definition e_proxy (e : epcT) : Z := match e with EWgAdd | ESpawn => 1 | _ => 0 end.
-Definition e_guard (e : epcT) : Z := match e with EChk | EGetCb | ECas | EWgAdd | ESpawn | EClrP => 1 | _ => 0 end.
+Definition e_guard (e : epcT) : Z := match e with EChk | ENotify | EGetCb | ECas | EWgAdd | ESpawn | EClrP => 1 | _ => 0 end.
 (* the event loop will clear pendingData if it finds the state closed at its next state check *)
 Definition e_wclr (e : epcT) : Z := match e with EAdd _ | EChk | EClrP => 1 | _ => 0 end.
 Definition e_clr (e : epcT) : Z := match e with EClrP | EClrR => 1 | _ => 0 end.
@@ -154,9 +163,10 @@ Proof.
       try (destruct (inbox s) as [|e r]; [left; reflexivity|]; destruct (intable s); [destruct e|]; cbn; left; reflexivity);
       try destruct (cbset s) eqn:Ecb; zeq; cbn; uc; lia.
   - unfold gstep. destruct (nth_error (gors s) i) as [g|]; [|left; reflexivity].
-    destruct g as [| | |k cl|c more| | | | | | | | | | |c|]; cbn; try (left; reflexivity);
+    destruct g as [| | |k cl|c more| | | | | | | | | | |c| |nd cl|nd cl|nd cl|cl]; cbn; try (left; reflexivity);
       try (pose proof (cstep_mono s c) as Hm; unfold mono in *; destruct (negb (isret c) && isret (snd (cstep s c))); cbn; exact Hm);
-      zeq; cbn; try destruct (recv s); try destruct (pending s); cbn; left; reflexivity.
+      zeq; cbn; try destruct (recv s); try destruct (pending s); cbn;
+      repeat match goal with |- context [if ?c then _ else _] => destruct c end; cbn; left; reflexivity.
   - unfold clstep. destruct (nth_error (clos s) i) as [c|]; [|left; reflexivity].
     pose proof (cstep_mono s c) as Hm; unfold mono in *. destruct (negb (isret c) && isret (snd (cstep s c))); cbn; exact Hm.
   - unfold sstep, mono. destruct (spc s); cbn; try destruct (sypc s); try destruct (cbset s) eqn:Ecb; zeq; cbn; lia.
@@ -186,11 +196,11 @@ Qed.
    ==================================================================================================== *)
 Ltac cb := cbn [step estep gstep clstep sstep ustep systep cstep setg clear_pending move_pending fst snd
   st inproc cstate wg cbset intable cnotify pending recv inbox epc gors clos spc users script sypc sytodo processed arrived
-  chunks consumed offers nlocal nremote out khalf lhalf casfail nret isret
+  chunks consumed offers nlocal nremote out khalf lhalf casfail nret rnotify needs picks isret
   set_st set_inproc set_cstate set_wg set_cbset set_intable set_cnotify set_pending set_recv set_inbox set_epc
   set_gors set_clos set_spc set_users set_script set_sypc set_sytodo set_processed set_arrived set_chunks set_consumed set_offers
-  set_nlocal set_nremote set_out set_khalf set_lhalf set_casfail set_nret
-  b2z nz c_athalf c_needcl c_pendcb c_send c_cleanT c_ret c_busy c_past gl g_own g_re g_act g_run g_cb g_exit g_all g_atclr g_sw g_swin g_w g_cbpast g_xc g_badclose
+  set_nlocal set_nremote set_out set_khalf set_lhalf set_casfail set_nret set_rnotify set_needs set_picks
+  b2z nz g_park g_ownnp e_tok c_waitA c_athalf c_needcl c_pendcb c_send c_cleanT c_ret c_busy c_past gl g_own g_re g_act g_run g_cb g_exit g_all g_atclr g_sw g_swin g_w g_cbpast g_xc g_badclose
   e_proxy e_guard e_wclr e_clr e_halfn e_half e_cas s_proxy s_busy y_busy upc utodo ures negb orb andb cz ncl] in *.
 
 Ltac cases s w :=
@@ -198,7 +208,7 @@ Ltac cases s w :=
   [ unfold estep; destruct (epc s) eqn:Ee;
       [ destruct (inbox s) as [|e r] eqn:Ei; [|destruct (intable s) eqn:Et; [destruct e as [m|]|]] | .. ]
   | unfold gstep; destruct (nth_error (gors s) i) as [g|] eqn:Hn;
-      [destruct g as [| | |k cl|c more| | | | | | | | | | |c|]; [ | | |destruct cl|destruct c| | | | | | | | | | |destruct c|] |]
+      [destruct g as [| | |k cl|c more| | | | | | | | | | |c| |nd cl|nd cl|nd cl|cl]; [ | | |destruct cl|destruct c| | | | | | | | | | |destruct c| | | | | ] |]
   | unfold clstep; destruct (nth_error (clos s) i) as [c|] eqn:Hn; [destruct c|]
   | unfold sstep; destruct (spc s) eqn:Es; [destruct (sypc s) eqn:Ey|..]
   | unfold ustep; destruct (nth_error (users s) i) as [u|] eqn:Hn; [destruct (upc u) as [|m|m|m aft]; [destruct (utodo u)| | |]|]
@@ -215,6 +225,13 @@ Ltac brk := repeat match goal with
   | |- context [match pending ?s with _ => _ end] => destruct (pending s) eqn:Epd
   | |- context [match ?m with O => _ | S _ => _ end] => destruct m
   | |- context [if sy_moves ?s ?k then _ else _] => destruct (sy_moves s k)
+  | |- context [if Nat.ltb ?a ?b then _ else _] => destruct (Nat.ltb a b)
+  | |- context [if rnotify ?s then _ else _] => destruct (rnotify s) eqn:Ern
+  | |- context [if cnotify ?s then _ else _] => destruct (cnotify s) eqn:Ecn
+  | |- context [true && ?b] => cbn [andb]
+  | |- context [false && ?b] => cbn [andb]
+  | |- context [if hd false (picks ?s) then _ else _] => destruct (hd false (picks s))
+  | |- context [if cnotify ?s && ?b then _ else _] => destruct (cnotify s) eqn:Ecn; [destruct b|]; cbn [andb]
   | |- context [if ?c then _ else _] => match c with context [?a =? ?b] => destruct (Z.eqb_spec a b) end
   end; cb.
 
@@ -227,6 +244,8 @@ Ltac rw_eqs := repeat match goal with
   | E : pending _ = _ |- _ => rewrite E
   | E : sypc _ = _ |- _ => rewrite E
   | E : sytodo _ = _ |- _ => rewrite E
+  | E : rnotify _ = _ |- _ => rewrite E
+  | E : cnotify _ = _ |- _ => rewrite E
   end.
 
 Ltac rw_cnt := match goal with
@@ -451,15 +470,15 @@ Qed.
    ==================================================================================================== *)
 Ltac initc := intros; constructor; cbn; rewrite ?cz_repeat_false by reflexivity; uc; cbn; try lia; auto.
 
-Lemma initP cb0 inb n scr ups sy : InvP (init_sy cb0 inb n scr ups sy).
+Lemma initP cb0 inb n scr ups sy nds pks : InvP (init_rd cb0 inb n scr ups sy nds pks).
 Proof. initc. Qed.
-Lemma initA cb0 inb n scr ups sy : InvA (init_sy cb0 inb n scr ups sy).
+Lemma initA cb0 inb n scr ups sy nds pks : InvA (init_rd cb0 inb n scr ups sy nds pks).
 Proof. initc. Qed.
-Lemma initT cb0 inb n scr ups sy : InvT (init_sy cb0 inb n scr ups sy).
+Lemma initT cb0 inb n scr ups sy nds pks : InvT (init_rd cb0 inb n scr ups sy nds pks).
 Proof. initc. Qed.
-Lemma initL cb0 inb n scr ups sy : InvL (init_sy cb0 inb n scr ups sy).
+Lemma initL cb0 inb n scr ups sy nds pks : InvL (init_rd cb0 inb n scr ups sy nds pks).
 Proof. initc. Qed.
-Lemma initC cb0 inb n scr ups sy : InvC (init_sy cb0 inb n scr ups sy).
+Lemma initC cb0 inb n scr ups sy nds pks : InvC (init_rd cb0 inb n scr ups sy nds pks).
 Proof. destruct cb0; initc; try (intros; repeat split; cbn; rewrite ?cz_repeat_false by reflexivity; lia). Qed.
 Record InvAll (s : est) : Prop := { a_P : InvP s; a_A : InvA s; a_T : InvT s; a_L : InvL s; a_C : InvC s }.
 
@@ -470,8 +489,48 @@ Proof.
 Qed.
 Lemma runAll sched s : InvAll s -> InvAll (run sched s).
 Proof. revert s; induction sched as [|w l IH]; simpl; intros s H; auto. apply IH, stepAll, H. Qed.
-Lemma initAll cb0 inb n scr ups sy : InvAll (init_sy cb0 inb n scr ups sy).
+Lemma initAll cb0 inb n scr ups sy nds pks : InvAll (init_rd cb0 inb n scr ups sy nds pks).
 Proof. constructor; [apply initP|apply initA|apply initT|apply initL|apply initC]. Qed.
+
+(* ====================================================================================================
+   A reader parked inside OnData (blocking read): what arrives after it parked is announced by a token in
+   recvNotifyCh (or closeNotifyCh is closed), and a close() that waits for the goroutine has closed closeNotifyCh
+   ==================================================================================================== *)
+Lemma own_park l : cz g_own l = cz g_park l + cz g_ownnp l.
+Proof. induction l as [|g l IH]; cbn [cz]; [lia|]. rewrite IH. destruct g; cbn [g_own g_park g_ownnp andb negb]; lia. Qed.
+Lemma e_tok_range e : 0 <= e_tok e <= 1.
+Proof. destruct e; simpl; lia. Qed.
+Ltac finB s :=
+  match goal with
+  | Hn : nth_error (gors _) _ = Some _ |- _ =>
+      try (pose proof (cz_pos_in g_ownnp _ _ _ Hn eq_refl)); try (pose proof (cz_pos_in g_park _ _ _ Hn eq_refl))
+  | _ => idtac end; finC s.
+Record InvB (s : est) : Prop := {
+  w_tok : nz (pending s) + cz g_park (gors s) <= 1 + b2z (rnotify s) + b2z (cnotify s) + e_tok (epc s);
+  w_cl : b2z (cnotify s) = 1 \/ cz c_waitA (clos s) + cz (gl c_waitA) (gors s) = 0 }.
+Lemma stepB s w : InvC s -> InvB s -> InvB (step s w).
+Proof.
+  intros [C1 C2 _ _ _ _ _ _] [H1 H2]. pose proof (own_park (gors s)).
+  pose proof (nz_range (pending s)). pose proof (cz_nonneg g_park (gors s)). pose proof (cz_nonneg g_ownnp (gors s)). pose proof (e_tok_range (epc s)).
+  pose proof (cz_nonneg c_waitA (clos s)). pose proof (cz_nonneg (gl c_waitA) (gors s)). pose proof (b2z_range (rnotify s)). pose proof (b2z_range (cnotify s)).
+  constructor.
+  - clear H2. cases s w; brk; finB s.
+  - clear H1 C1 C2. cases s w; brk;
+      try match goal with
+          | Hn : nth_error (gors _) _ = Some _ |- context [CTbl ?old] =>
+              destruct (isloc old) eqn:Eo; [pose proof (cz_pos_in (gl c_waitA) _ _ _ Hn Eo)|]
+          | Hn : nth_error (clos _) _ = Some _ |- context [CTbl ?old] =>
+              destruct (isloc old) eqn:Eo; [pose proof (cz_pos_in c_waitA _ _ _ Hn Eo)|]
+          end; finB s.
+Qed.
+Lemma initB cb0 inb n scr ups sy nds pks : InvB (init_rd cb0 inb n scr ups sy nds pks).
+Proof. initc. Qed.
+Lemma runB sched s : InvAll s -> InvB s -> InvB (run sched s).
+Proof.
+  revert s; induction sched as [|w l IH]; simpl; intros s HA H; auto.
+  apply IH; [apply stepAll, HA|apply stepB; [apply HA|exact H]].
+Qed.
+
 
 (* ---------- list/count helpers for the statements ---------- *)
 Lemma cz_all_false {A} (f : A -> bool) l : (forall i x, nth_error l i = Some x -> f x = false) -> cz f l = 0.
@@ -507,8 +566,8 @@ Proof. intros H. unfold flush_res. destruct (Z.eqb_spec (st s) c_streamOpened); 
    C20
    ==================================================================================================== *)
 Section C20.
-Variables (cb0 : bool) (inb : list ev) (ncl_ : nat) (scr : list (nat * nat)) (ups : list (list (list Z))) (sy : list nat).
-Let s0 := init_sy cb0 inb ncl_ scr ups sy.
+Variables (cb0 : bool) (inb : list ev) (ncl_ : nat) (scr : list (nat * nat)) (ups : list (list (list Z))) (sy : list nat) (nds : list nat) (pks : list bool).
+Let s0 := init_rd cb0 inb ncl_ scr ups sy nds pks.
 
 (* OnData never overlaps itself: at most one thread owns callbackInProcess, and only owners run OnData *)
 Theorem serial sched :
@@ -517,7 +576,7 @@ Theorem serial sched :
   (forall i j gi gj, nth_error (gors s) i = Some gi -> nth_error (gors s) j = Some gj ->
                      g_own gi = true -> g_own gj = true -> i = j).
 Proof.
-  intros s. pose proof (runAll sched s0 (initAll _ _ _ _ _ _)) as H. fold s in H.
+  intros s. pose proof (runAll sched s0 (initAll _ _ _ _ _ _ _ _)) as H. fold s in H.
   destruct H as [_ _ _ _ [Hf H01 _ _ _ _ _ _]].
   assert (Ho : cz g_own (gors s) + e_proxy (epc s) + s_proxy (spc s) <= 1) by lia.
   pose proof (e_range (epc s)) as He. pose proof (s_range (spc s)) as Hs.
@@ -532,12 +591,12 @@ Theorem no_strand sched :
   let s := run sched s0 in
   cbset s = true -> pending s <> [] -> st s = c_streamOpened -> cstate s = 0 ->
   (forall i g, nth_error (gors s) i = Some g -> g_own g = false) ->
-  (epc s = EChk \/ epc s = EGetCb \/ epc s = ECas \/ epc s = EWgAdd \/ epc s = ESpawn) \/
+  (epc s = EChk \/ epc s = ENotify \/ epc s = EGetCb \/ epc s = ECas \/ epc s = EWgAdd \/ epc s = ESpawn) \/
   (spc s = SCas \/ spc s = SWgAdd \/ spc s = SSpawn) \/
   (exists i g, nth_error (gors s) i = Some g /\ g_re g = true).
 Proof.
   intros s Hcb Hp Hst Hcs Hno.
-  pose proof (runAll sched s0 (initAll _ _ _ _ _ _)) as HA. fold s in HA.
+  pose proof (runAll sched s0 (initAll _ _ _ _ _ _ _ _)) as HA. fold s in HA.
   destruct HA as [[HE _ _ _ _ _] _ _ _ [_ _ _ _ _ HP _ _]].
   assert (Ho : cz g_own (gors s) = 0) by (apply cz_all_false; exact Hno).
   assert (Hnz : nz (pending s) = 1) by (destruct (pending s); simpl; [congruence|lia]).
@@ -545,7 +604,7 @@ Proof.
   pose proof (e_range (epc s)) as He. pose proof (s_range (spc s)) as Hs. pose proof (cz_nonneg g_re (gors s)) as Hr.
   destruct (Z.eq_dec (e_guard (epc s)) 1) as [Hg|Hg].
   - left. assert (Hc : e_clr (epc s) = 0) by (apply HE; uc; lia).
-    destruct (epc s); simpl in *; auto; try lia.
+    destruct (epc s); simpl in *; auto 10; try lia.
   - destruct (Z.eq_dec (s_busy (spc s)) 1) as [Hb|Hb].
     + right. left. destruct (spc s); simpl in Hb; auto; lia.
     + right. right. apply cz_exists. lia.
@@ -562,7 +621,7 @@ Theorem quiescent sched :
   pending s = [] /\ recv s = [] /\ consumed s = arrived s.
 Proof.
   intros s Hcb Hsp He Hg Hst Hcs.
-  pose proof (runAll sched s0 (initAll _ _ _ _ _ _)) as HA. fold s in HA.
+  pose proof (runAll sched s0 (initAll _ _ _ _ _ _ _ _)) as HA. fold s in HA.
   destruct HA as [_ _ _ [LA LB LC] [_ _ _ _ _ HP HQ _]].
   assert (Ho : cz g_own (gors s) = 0) by (apply cz_all_false; intros i g Hi; rewrite (Hg i g Hi); reflexivity).
   assert (Hr : cz g_re (gors s) = 0) by (apply cz_all_false; intros i g Hi; rewrite (Hg i g Hi); reflexivity).
@@ -577,19 +636,61 @@ Proof.
   specialize (LB Hnc). specialize (LC Hnc).
   rewrite LA, Hp. simpl. rewrite app_nil_r. rewrite <- (movedof_all _ LB), LC, Hrv, app_nil_r. reflexivity.
 Qed.
+
+(* a blocking read inside OnData: the invocation that waits in readMore for more bytes is resumed by the next arrival.
+   Whenever something is pending while a goroutine is parked, the token is in recvNotifyCh (or closeNotifyCh is closed),
+   unless the event loop stands between its add and its asyncNotify (or is about to clear what it added: state closed) *)
+Theorem parked_resumed sched i nd cl :
+  let s := run sched s0 in
+  nth_error (gors s) i = Some (GRdPark nd cl) -> pending s <> [] ->
+  epc s <> EChk -> epc s <> ENotify -> epc s <> EClrP ->
+  rnotify s = true \/ cnotify s = true.
+Proof.
+  intros s Hi Hp H1 H2 H3.
+  pose proof (runAll sched s0 (initAll _ _ _ _ _ _ _ _)) as HA. fold s in HA.
+  pose proof (runB sched s0 (initAll _ _ _ _ _ _ _ _) (initB _ _ _ _ _ _ _ _)) as [HB _]. fold s in HB.
+  pose proof (cz_pos_in g_park (gors s) i _ Hi eq_refl).
+  assert (Hnz : nz (pending s) = 1) by (destruct (pending s); simpl; [congruence|lia]).
+  assert (He : e_tok (epc s) = 0) by (destruct (epc s); simpl; auto; congruence).
+  destruct (rnotify s); [left; reflexivity|]. destruct (cnotify s); [right; reflexivity|]. cbn [b2z] in HB. lia.
+Qed.
+(* hence at rest (event loop idle, no token, not closed) a parked invocation has been given everything that arrived *)
+Theorem parked_quiescent sched i nd cl :
+  let s := run sched s0 in
+  nth_error (gors s) i = Some (GRdPark nd cl) -> epc s = EIdle -> rnotify s = false -> cnotify s = false ->
+  pending s = [].
+Proof.
+  intros s Hi He Hr Hc. subst s. set (s := run sched s0) in *.
+  destruct (pending s) as [|p l] eqn:Ep; [reflexivity|exfalso].
+  assert (Hp : pending s <> []) by (rewrite Ep; discriminate).
+  assert (E1 : epc s <> EChk) by (rewrite He; discriminate).
+  assert (E2 : epc s <> ENotify) by (rewrite He; discriminate).
+  assert (E3 : epc s <> EClrP) by (rewrite He; discriminate).
+  destruct (parked_resumed sched i nd cl Hi Hp E1 E2 E3) as [H|H]; fold s in H; congruence.
+Qed.
+(* and it is the goroutine's own step that takes the token / sees the close: the parked thread is enabled *)
+Theorem parked_enabled (s : est) i nd cl :
+  nth_error (gors s) i = Some (GRdPark nd cl) -> rnotify s = true \/ cnotify s = true ->
+  nth_error (gors (step s (WGor i))) i <> Some (GRdPark nd cl).
+Proof.
+  intros Hi H. assert (Hl : (i < length (gors s))%nat) by (apply nth_error_Some; congruence).
+  cbn [step]. unfold gstep. rewrite Hi.
+  destruct (rnotify s) eqn:Er; destruct (cnotify s) eqn:Ec; try (destruct H; discriminate);
+    try destruct (hd false (picks s)); cbn [andb]; unfold setg; cb; rewrite nth_set_nth by assumption; discriminate.
+Qed.
 End C20.
 
 (* order / exactly once (any callback mode): what arrived is the in-order concatenation of the chunks taken
    out of pending plus what is still pending; what reached recvBuf is the sub-sequence of moved chunks; until
    the stream is closed nothing is dropped and every arrived byte is, once and in order, consumed by OnData,
    readable in recvBuf, or pending *)
-Theorem order_once cb0 inb ncl scr ups sy sched :
-  let s := run sched (init_sy cb0 inb ncl scr ups sy) in
+Theorem order_once cb0 inb ncl scr ups sy nds pks sched :
+  let s := run sched (init_rd cb0 inb ncl scr ups sy nds pks) in
   arrived s = concat (map snd (chunks s)) ++ concat (pending s) /\
   moved s = concat (map snd (filter fst (chunks s))) /\
   (st s <> c_streamClosed -> arrived s = consumed s ++ recv s ++ concat (pending s)).
 Proof.
-  intros s. pose proof (runAll sched _ (initAll cb0 inb ncl scr ups sy)) as HA. fold s in HA.
+  intros s. pose proof (runAll sched _ (initAll cb0 inb ncl scr ups sy nds pks)) as HA. fold s in HA.
   destruct HA as [_ _ _ [LA LB LC]]. repeat split; auto.
   intros Hnc. rewrite LA. rewrite <- (movedof_all _ (LB Hnc)), (LC Hnc), app_assoc. reflexivity.
 Qed.
@@ -603,8 +704,8 @@ Proof.
   intros Hst. unfold olen. cases s w; brk; cb; rw_cnt; rewrite ?app_length, ?Nat2Z.inj_add; cbn [length]; cb;
     try lia; try congruence; uc; zeqh; cb; lia.
 Qed.
-Theorem stop cb0 inb ncl scr ups sy sched sched' :
-  let s := run sched (init_sy cb0 inb ncl scr ups sy) in
+Theorem stop cb0 inb ncl scr ups sy nds pks sched sched' :
+  let s := run sched (init_rd cb0 inb ncl scr ups sy nds pks) in
   st s <> c_streamOpened ->
   let s' := run sched' s in
   st s' <> c_streamOpened /\ olen s' + cz g_cb (gors s') <= olen s + cz g_cb (gors s).
